@@ -200,7 +200,7 @@ func c16r3(r *R) {
 			}
 			cn := calleeName(c.Common())
 			isDel := cn == "(net/http.Header).Del"
-			isDelete := cn == "builtin delete" && typeStr(c.Common().Args[0].Type()) == "net/http.Header"
+			isDelete := cn == "builtin delete" && typeStr(refArgs(c.Common())[0].Type()) == "net/http.Header"
 			if !isDel && !isDelete {
 				return
 			}
@@ -232,7 +232,7 @@ func globalRegexp(r *R, pkgRel, name string) (string, ssa.Instruction) {
 		}
 		n++
 		if c, ok := st.Val.(*ssa.Call); ok && calleeName(c.Common()) == "regexp.MustCompile" {
-			if s, ok := constString(c.Common().Args[0]); ok {
+			if s, ok := constString(refArgs(c.Common())[0]); ok {
 				pat, at = s, st
 			}
 		}
@@ -462,7 +462,7 @@ func c16r5(r *R) {
 		if !ok || calleeName(c.Common()) != "builtin append" {
 			return
 		}
-		va := variadicArgs(c.Common().Args[1])
+		va := variadicArgs(refArgs(c.Common())[1])
 		if len(va) != 1 {
 			return
 		}
@@ -504,7 +504,7 @@ func c16r5(r *R) {
 	found := false
 	for _, lit := range anonFuncs(tp) {
 		for _, c := range calls(lit, nameHasSuffix("header.Header).Apply")) {
-			recv := describePointee(c.Common().Args[0])
+			recv := describePointee(refArgs(c.Common())[0])
 			bs := closureBindings(lit)
 			for i, bd := range bs {
 				if strings.Contains(recv, fmt.Sprintf("^%d.connectHeaders", i)) && bd == "$0" {
@@ -526,7 +526,7 @@ func c16r6(r *R) {
 			return
 		}
 		n++
-		key := describe(c.Common().Args[1])
+		key := describe(refArgs(c.Common())[1])
 		var tests []string
 		good := false
 		for _, g := range guardStrings(c.Block()) {
